@@ -389,13 +389,13 @@ func reportToGitLabDiscussion(pending PendingComment, diffs []*gitlab.MergeReque
 
 	dl, ok := diffLineFor(parseDiffLines(diff.Diff), pending.line)
 	switch {
+	case pending.anchor == checks.AnchorBefore:
+		// Comment on removed line: pending.line is already a line number of the old file.
+		d.Position.OldLine = gitlab.Ptr(pending.line)
 	case !ok:
 		// No diffLine for this line, most likely unmodified ?.
 		d.Position.NewLine = gitlab.Ptr(pending.line)
 		d.Position.OldLine = gitlab.Ptr(pending.line)
-	case pending.anchor == checks.AnchorBefore:
-		// Comment on removed line.
-		d.Position.OldLine = gitlab.Ptr(dl.old)
 	case ok && !dl.wasModified:
 		// Comment on unmodified line.
 		d.Position.NewLine = gitlab.Ptr(dl.new)
